@@ -74,6 +74,39 @@ def synth_conflict(rng):
     return 'grammar g;\nstart = e;\ne = %s;\nNUM = /[0-9]+/;\n' % " | ".join(alts)
 
 
+def multiway_conflict(rng):
+    """table entries holding three or more actions (a shift and several reductions), with directives that rank some of the
+    actions and not others: whether such an entry is settled must not depend on the order in which its actions are visited"""
+    if rng.random() < 0.5:
+        z, op = rng.sample(['"z"', '"+"', '"q"', '"-"', '"if"'], 2)
+        n = rng.choice([2, 2, 3])
+        nts = ["a", "b", "c"][:n]
+        alts = ['%s %s "x%d"' % (nt, op, i) for i, nt in enumerate(nts)] + ['%s %s "w"' % (z, op)]
+        rng.shuffle(alts)
+        dirs = rng.choice([[op, z], [op, z], [op, z], [z, op], [op], [z], [op + " " + z], []])
+        return "grammar g;\n%sstart = %s;\n%s" % ("".join("%s %s;\n" % (rng.choice(["@left", "@right", "@none"]), d) for d in dirs),
+                                                  " | ".join(alts), "".join("%s = %s;\n" % (nt, z) for nt in nts))
+    handles = ['"+"', '"*"', '"-"', '<e = e e>', 'NUM', '"("']
+    rng.shuffle(handles)
+    k = rng.randrange(1, len(handles) + 1)
+    levels, i = [], 0
+    while i < k:
+        j = min(k, i + rng.choice([1, 1, 2, 3]))
+        levels.append("%s %s;\n" % (rng.choice(["@left", "@right", "@left", "@none"]), " ".join(handles[i:j])))
+        i = j
+    alts = ['e "+" e', 'e "*" e', 'e "-" e', '"(" e ")"', "NUM", "e e"]
+    rng.shuffle(alts)
+    return "grammar g;\n%sstart = e;\ne = %s;\nNUM = /[0-9]+/;\n" % ("".join(levels), " | ".join(alts[:rng.choice([3, 4, 5, 6])] + ([] if "NUM" in alts[:3] else ["NUM"])))
+
+
+MULTIWAY = '''grammar g;
+@left "+";
+@left "z";
+start = a "+" "x" | b "+" "y" | "z" "+" "w";
+a = "z";
+b = "z";
+'''
+
 ANSI = re.compile(r"\x1b\[[0-9;]*m")
 
 
@@ -95,7 +128,9 @@ def run(ctx):
     except Broken as b:
         ctx.add_broken(b.what, b.detail)
     rng = ctx.rng
-    texts = [MANY, DIAG, CONFLICT, LALRCONF, LALRSYN, BADPATS]
+    texts = [MANY, DIAG, CONFLICT, LALRCONF, LALRSYN, BADPATS, MULTIWAY]
+    multi = [MULTIWAY] + [multiway_conflict(rng) for _ in range(24 if quick else 300)]
+    texts += multi[1:]
     texts += [bad_patterns(rng) for _ in range(8 if quick else 100)]
     texts += [synth_conflict(rng) for _ in range(12 if quick else 150)]
     texts += [c03.gen_defs(rng) for _ in range(40 if quick else 600)]
@@ -106,6 +141,8 @@ def run(ctx):
     nin = 6
     # specifications that fail fast are repeated more often: an order that depends on scheduling shows up rarely per run
     def reps(t):
+        if t in multi:
+            return 40
         return 60 if ("{3,1}" in t or "[z-a]" in t or "{5,2}" in t or "[9-0]" in t or "{2,1}" in t or "[b-a]" in t or "{9,8}" in t) else nin
     res = ctx.run_impl_par("det", ["%s %d" % (hx(t.encode()), reps(t)) for t in texts], nproc=8, timeout=1500, isolate=True)
     stats = {"specifications": len(texts), "in_process_runs": len(texts) * nin, "process_runs": 0, "generated": 0, "rejected": 0, "skipped_known_crash": 0}
